@@ -260,7 +260,9 @@ impl<T: Ord + Clone> Collection<T> {
                 self.known.insert(key, other_kind.or_undefined());
             }
         }
-        self.unknown.merge(other.unknown, overwrite);
+        // A field that is known in neither collection comes from `other` if it exists there
+        // and from `self` otherwise, so the unknown kinds are always united, never overwritten.
+        self.unknown.merge(other.unknown, false);
     }
 
     /// Return the reduced `Kind` of the items within the collection.
